@@ -6,10 +6,10 @@ const genNote = "Trusted: Go toolchain, the harness (gch) and its reflection-bas
 
 func genSpec(text, technique, rule string, assumptions []string, floors []floor, o gOpts) *spec {
 	if o.QSets == nil {
-		o.QSets = []string{"cases", "goldmaster"}
+		o.QSets = []string{"cases", "goldmaster", "sink"}
 	}
 	if o.TSets == nil {
-		o.TSets = []string{"cases", "goldmaster", "schema", "casesnotl2"}
+		o.TSets = []string{"cases", "goldmaster", "sink", "schema"}
 	}
 	if o.QShards == 0 {
 		o.QShards = 6
@@ -42,7 +42,7 @@ func init() {
 		"For every item with both TL1 and TL2 code: valid TL1 bytes -> ReadTL1 -> WriteTL2 -> ReadTL2 into a fresh object -> WriteTL1 must reproduce the TL1 bytes, and the JSON of the TL1-decoded and TL2-decoded objects must be equal.",
 		"property-based testing (rapid): conversion round trip + JSON equality oracle",
 		"non-trivial iff the TL1 encoding is >= 8 bytes and differs from the zero value's",
-		nil, nil, gOpts{QSets: []string{"cases", "goldmaster"}, TSets: []string{"cases", "goldmaster", "schema"}})
+		nil, nil, gOpts{})
 	specs["C05"] = genSpec(
 		"For every item: WriteJSONGeneral (Short / LegacyTypeNames drawn) must be valid JSON (encoding/json), ReadJSONGeneral into a fresh object must accept it and consume it, the JSON of the result must be identical, and its TL1 and TL2 encodings must equal the original's. Strings are arbitrary byte sequences (invalid UTF-8, controls, U+2028/9, CR), floats arbitrary bit patterns incl. +-Inf and NaN.",
 		"property-based testing (rapid): validity + round-trip oracle across three encodings",
